@@ -21,6 +21,11 @@ func probeE2E(f []string) string {
 	}
 	be.lmtpSess = cfg["lmtpsess"] == "1"
 	be.authSess = cfg["authsess"] == "1"
+	if cfg["mechs"] != "" && cfg["mechs"] != "-" {
+		for _, m := range strings.Split(cfg["mechs"], ":") {
+			be.mechs = append(be.mechs, string(unhx(m)))
+		}
+	}
 	srv := smtp.NewServer(be)
 	srv.Domain = "d"
 	srv.LMTP = cfg["lmtp"] == "1"
